@@ -127,7 +127,7 @@ def _ext_axiom(sort, diff, size):
     txt = (f"(assert (forall ((s {so}) (t {so})) (! (or (= s t) (not (= (select s ({d} s t)) (select t ({d} s t))))) "
            f":pattern (({f} s) ({f} t)))))")
     from . import ty as T
-    sorts = {x.name(): x for x in (T.TupS, T.MetaS, T.LayerS, T.StrS, T.FieldS, T.ValS)}
+    sorts = {x.name(): x for x in (T.TupS, T.MetaS, T.LayerS, T.StrS, T.FieldS, T.ValS, T.VNameS, T.VObjS)}
     sorts.update({x.name(): x for x in T._pairs.values()})
     return z3.parse_smt2_string(txt, sorts=sorts, decls={d: diff, f: size})[0]
 
@@ -138,7 +138,7 @@ def _pos_axiom(sort, esort, size, is_bag):
     so, eo, f = sort.sexpr(), esort.sexpr(), size.name()
     mem = "(>= (select s x) 1)" if is_bag else "(select s x)"
     txt = f"(assert (forall ((s {so}) (x {eo})) (! (=> {mem} (>= ({f} s) 1)) :pattern ((select s x) ({f} s)))))"
-    sorts = {x.name(): x for x in (T.TupS, T.MetaS, T.LayerS, T.StrS, T.FieldS, T.ValS)}
+    sorts = {x.name(): x for x in (T.TupS, T.MetaS, T.LayerS, T.StrS, T.FieldS, T.ValS, T.VNameS, T.VObjS)}
     sorts.update({x.name(): x for x in T._pairs.values()})
     return z3.parse_smt2_string(txt, sorts=sorts, decls={f: size})[0]
 
@@ -150,7 +150,7 @@ def _mono_axiom(sort, esort, size, n):
     w = z3.Function(f"subset_witness_{n}", sort, sort, esort)
     txt = (f"(assert (forall ((a {so}) (b {so})) (! (or (and (select a ({w.name()} a b)) (not (select b ({w.name()} a b)))) (<= ({f} a) ({f} b))) "
            f":pattern (({f} a) ({f} b)))))")
-    sorts = {x.name(): x for x in (T.TupS, T.MetaS, T.LayerS, T.StrS, T.FieldS, T.ValS)}
+    sorts = {x.name(): x for x in (T.TupS, T.MetaS, T.LayerS, T.StrS, T.FieldS, T.ValS, T.VNameS, T.VObjS)}
     sorts.update({x.name(): x for x in T._pairs.values()})
     return z3.parse_smt2_string(txt, sorts=sorts, decls={f: size, w.name(): w})[0]
 
@@ -235,12 +235,13 @@ ROWSUM = z3.Function("rowsum", z3.ArraySort(_pair_ii().sort(), R), I, I, R)     
 RSDIFF = z3.Function("rowsum_diff", z3.ArraySort(_pair_ii().sort(), R), z3.ArraySort(_pair_ii().sort(), R), I, I, I)
 
 
-def nx_centrality(kind, cls):
-    """networkx centrality of a graph over integer vertices: vertex -> value, an uninterpreted function of the graph's components."""
+def nx_centrality(kind, cls, vt=None):
+    """networkx centrality of a graph: vertex -> value, an uninterpreted function of the graph's components."""
     from . import ty as T
-    pt = T.Pair(T.INT, T.INT)
-    return z3.Function(f"nx_{kind}_{cls}", z3.ArraySort(I, B), z3.ArraySort(pt.sort(), B), z3.ArraySort(pt.sort(), B), z3.ArraySort(pt.sort(), R),
-                       z3.ArraySort(I, R))
+    vt = vt or T.INT
+    pt = T.Pair(vt, vt)
+    return z3.Function(f"nx_{kind}_{cls}", z3.ArraySort(vt.sort(), B), z3.ArraySort(pt.sort(), B), z3.ArraySort(pt.sort(), B), z3.ArraySort(pt.sort(), R),
+                       z3.ArraySort(vt.sort(), R))
 
 
 EXTRA = {}    # name -> axiom, registered by contract modules (assumed properties of uncontracted code; listed as trusted)
